@@ -182,6 +182,15 @@ func unitOf(n *html.Node, root *html.Node, pos map[*html.Node]int) int {
 		switch e.Data {
 		case "h1", "h2", "h3", "h4", "h5", "h6", "p", "pre", "code", "blockquote", "table":
 			return pos[n]
+		case "div":
+			// a div without a block-level DIRECT child and with text is read as ONE paragraph
+			// (getTextContent of the whole div; `want`/`src` of the Lean model: tnFlatL kids): its
+			// text nodes come in plain document order, also those of list items that sit in it
+			// below an inline-level wrapper (<div><font><ul><li>a<ul><li>b</li></ul>c</li></ul></font></div>
+			// returns the paragraph "a b c"; seed 3, case 449 was reported as C19/content-order)
+			if !hasBlockChild(e) && !blankText(e) {
+				return pos[n]
+			}
 		case "li":
 			next := path[i-1]
 			if next.Type == html.ElementNode && (next.Data == "ul" || next.Data == "ol") {
